@@ -52,7 +52,7 @@ def classify(c, listed_keys):
 
 def run(pid, tier, seed, replay):
     ck = Check(pid, tier, seed, level="proof")
-    n, hist = (2, 6) if tier == "quick" else (40, 150)
+    n, hist = (2, 6) if tier == "quick" else (150, 500)
     # ---- T: regenerate the enum tables and the key -> domain tables from the current source
     info_path = os.path.join(vlib.BUILD, "c43_info.json")
     rc, out, _ = vlib.sh([sys.executable, os.path.join(vlib.VERIF, TRANSLATOR), vlib.REPO,
